@@ -33,6 +33,11 @@ class Unit:
     def skip_verus(self, ctx, prog):
         return None
     def sample(self, ctx, prog, plan):
+        # default: the first function under contract of this program, written out
+        for key, c in plan.items():
+            if ctx.pid in c.props and (c.requires or c.ensures):
+                return {'program': prog.rust_source()[:1500], 'obligation': '%s::%s' % (key[0], key[2]),
+                        'contract': {'requires': [t for _, t in c.requires][:6], 'ensures': [t for _, t in c.ensures][:8]}}
         return None
     def verus_text(self, ctx, prog, pre, asm, lemmas):
         return '\n'.join([prog.aux_verus, prog.verus_enum(), pre, asm.text, lemmas])
@@ -130,6 +135,8 @@ class Unit:
                 h = res.harnesses.get(hid)
                 o = core.Obligation('%s/kani:%s' % (p.name, hname), p.name, label, 'kani', [ctx.pid])
                 o.harness = hid
+                if len(ctx.samples) < 3 and not any(s_.get('program_name') == p.name for s_ in ctx.samples):
+                    ctx.samples.append({'program_name': p.name, 'program': p.rust_source()[:1200], 'kani_harness': hid, 'obligation': label})
                 if h is None:
                     o.status = 'undecided'
                     o.detail = 'harness not reported by kani'
